@@ -240,7 +240,8 @@ _RS_MEMO = {}
 def _returns_size(cad, path, sz):
     """every value a local size function returns is itself a sum/product of sizes and small constants (a hint that is
     `usize::MAX / 2` "for safety" would make the caller's sum overflow without any overflow site of its own)"""
-    key = (id(cad), path, tuple(sorted(sz)))
+    _RS_MEMO = cad.__dict__.setdefault('_rs_memo', {})
+    key = (path, tuple(sorted(sz)))
     if key in _RS_MEMO:
         return _RS_MEMO[key]
     _RS_MEMO[key] = True        # recursion guard (REC reports recursion)
@@ -646,6 +647,13 @@ def discharge(ctx, m, inv_ok, cr, b, bi, kind, term, T):
                 t = t[1]
             key = fmt(t)
             if t[0] in ('call', 'field', 'param', 'load'):
+                atoms[key] = t
+                return key
+            # a value widened without loss (`counter.load(..) as u64` of an AtomicUsize) is a quantity like any other: the
+            # guard and the subtraction read the same widened value
+            from .sockets import UNSIGNED_BITS as _UB
+            if t[0] == 'cast' and t[1] == 'IntToInt' and t[2] in _UB and t[3] in _UB and _UB[t[3]] >= _UB[t[2]] and \
+                    norm(t[4])[0] in ('call', 'field', 'param', 'load'):
                 atoms[key] = t
                 return key
             return None
